@@ -62,6 +62,16 @@ def gen_body(env, k, rng):
     return cls(throttle_time_ms=n, error_code=0, error_message=None, coordinator_id=1, host="hh", port=1).encode()
 
 
+IDLE_MS = 70
+
+
+class _FrozenTime:
+    """stands in for the `time` module inside aiokafka.conn: `monotonic()` never moves"""
+    @staticmethod
+    def monotonic():
+        return 1000.0
+
+
 def gen_script(env, rng, long=False):
     """returns list of ops (model text, python action tuple)"""
     ops = []
@@ -79,6 +89,11 @@ def gen_script(env, rng, long=False):
             c = rng.random() * 0.92
         if c < 0.35 and len(sent) - answered < 8:
             k = rng.choice("hhhfqc" if rng.random() < 0.8 else "t")
+            if rng.random() < 0.12:
+                # a request that expects no reply (acks=0 produce): consumes a correlation id, queues no waiter
+                ctr = (ctr + 1) % 2**31
+                ops.append(("N", ("sendnr",)))
+                continue
             if k == "t":
                 ops.append(("SFFF:i8", ("sasl",)))
                 sent.append((nid, "t", None))
@@ -147,7 +162,10 @@ def gen_script(env, rng, long=False):
 async def run_script(env, loop, ctr0, ops):
     """drive the real connection; returns the canonical state text"""
     E = env.errors
-    conn = env.conn_mod.AIOKafkaConnection("h", 9092, request_timeout_ms=TIMEOUT_MS)
+    # the idle checker runs (every IDLE_MS of virtual time) against a frozen real clock: it never sees the
+    # connection idle, so on the code under test its ticks are no-ops, as the model has them
+    env.conn_mod.time = _FrozenTime
+    conn = env.conn_mod.AIOKafkaConnection("h", 9092, request_timeout_ms=TIMEOUT_MS, max_idle_ms=IDLE_MS)
     ctask = asyncio.ensure_future(conn.connect())
     await loop.settle()
     tr = loop.transports[-1]
@@ -196,6 +214,12 @@ async def run_script(env, loop, ctr0, ops):
             except E.KafkaConnectionError:
                 results.setdefault(nid, []).append("connErr")
             nid += 1
+        elif act[0] == "sendnr":
+            conn._versions = dict(env.kinds["h"][4])
+            try:
+                await conn.send(env.kinds["h"][0](), expect_response=False)
+            except E.KafkaConnectionError:
+                pass
         elif act[0] == "sasl":
             try:
                 aw = conn._send_sasl_token(b"tok")
@@ -253,6 +277,8 @@ def run(ctx):
     ctx.coverage["trusted_base"] = [
         "Lean 4.33.0 kernel; axioms propext, Classical.choice, Quot.sound only",
         "T-diff harness harness/checks/c12.py + harness/vtloop.py (virtual clock, in-memory transport), driver",
+        "the idle checker (max_idle_ms) runs on the virtual loop against a frozen `time.monotonic` inside aiokafka.conn: it "
+        "never finds the connection idle, its ticks are no-ops in the code as in the model; idle drops are not modelled",
         "asyncio StreamReader/async_timeout semantics are exercised for real, abstracted in the model as: bytes are "
         "consumed frame by frame in arrival order; a due timeout marks the waiter done",
         "response bodies decoded with the C11 wire model (Wire.decode)",
@@ -321,7 +347,7 @@ def run(ctx):
         loop.close()
         asyncio.set_event_loop(None)
     res = ctx.driver("akdriver", lines)
-    ctx.coverage["rule"] = ("scripts over {send h|f|q|c|sasl, feed chunk, advance, cancel, eof/reset, close} with 1..8 "
+    ctx.coverage["rule"] = ("scripts over {send h|f|q|c|sasl, send without reply (acks=0), feed chunk, advance (idle-checker ticks every 70 ms), cancel, eof/reset, close} with 1..8 "
                             "pipelined requests of flexible / non-flexible / quirk / SASL kinds, reply streams cut into random "
                             "chunks (1..7 bytes or more), wrong / unsolicited correlation ids, truncated frames, negative "
                             "sizes, counter preset near 2^31; plus every two-way split of three 3-reply streams. "
